@@ -19,8 +19,8 @@ HERE = os.path.dirname(os.path.abspath(__file__))
 sys.path.insert(0, HERE)
 os.chdir(HERE)
 # py4hw is imported from /repo's working tree (editable install); make that explicit
-if '/repo' not in sys.path:
-    sys.path.insert(1, '/repo')
+# (DSIM_REPO points the harness at a scratch worktree for sensitivity experiments only)
+sys.path.insert(1, os.environ.get('DSIM_REPO', '/repo'))
 os.environ.setdefault('MPLBACKEND', 'Agg')
 
 import argparse
